@@ -11,7 +11,10 @@ oracle:      (a) generated StepSpecs (the step.spec format `bob _invoke` reads) 
                  -E / -e / -D / whitelist / whitelistRemove / weak variables / tools / fingerprint script:
                  what each checkout, build, package and fingerprint script saw vs. the recipe declaration;
              (c) sandboxed steps (slim and image sandbox) when the helper works here: project directory listing
-                 and write attempts inside the sandbox vs. the declared dependencies.
+                 and write attempts inside the sandbox vs. the declared dependencies (projects outside /tmp so that
+                 the whiteout of the project directory matters);
+             (d) fingerprint scripts through `bob _invoke step.spec fingerprint` in a child whose standard input is
+                 /dev/null, a pipe or a socket and whose HOME has a .bashrc: only fingerprintVars + whitelist visible.
 correspond:  the same specs through the Lean model `drv_c13`: generated prolog text == head of the real script
              file, argv == BashLanguage.setupCall's, model environment/arguments/arrays == what real bash
              produced; Env.prune / whitelist / fingerprint preamble / StepSpec.fromStep (the step.spec files
@@ -31,10 +34,13 @@ RULE = ("streams: (a) StepSpec dictionaries: 0-6 declared variables (names from 
         "non-empty names over the same alphabet, host environments with decoys and collisions, preserveEnv on/off, "
         "whitelists; (b) generated Bob projects (root + library + tool provider [+ sandbox image]) with strong/weak/"
         "undeclared variables per step, default.yaml environment/whitelist/whitelistRemove, -D/-e/-E; (c) the same "
-        "under --slim-sandbox/--sandbox/--dev-sandbox/--strict-sandbox. A case is distinct by its full JSON and non-trivial if "
-        "at least one value, argument or name needs quoting.")
+        "under --slim-sandbox/--sandbox/--dev-sandbox/--strict-sandbox, plus StepSpec level sandbox layouts (0-3 declared and 1-2 "
+        "undeclared neighbour workspaces, stable or workspace paths, rw/ro host mounts, user nobody/root/$USER); (d) fingerprint "
+        "specs with stdin null/pipe/socket. A case is distinct by its full JSON and non-trivial if at least one value, argument "
+        "or name needs quoting.")
 ASSUMPTIONS = [
-    "bash (5.x) implements the word grammar modelled by ShellEnv.lexWord; validated against the real bash on every case",
+    "bash (5.x) implements the word grammar modelled by ShellEnv.lexWord and the start-up file rule ShellEnv.bashReadsRc "
+    "(-c command + socket stdin reads ~/.bashrc unless --norc); both validated against the real bash on every run",
     "variable names reserved by bash itself (readonly UID/EUID/PPID/SHELLOPTS/BASHOPTS/BASH_*, dynamic RANDOM/SECONDS/..., "
     "IFS/PS4/BASH_ENV that change bash's own behaviour) are outside the model; PWD, OLDPWD, SHLVL and _ are set by bash itself",
     "os.path.abspath / os.listdir / os.path.exists and the string substitution of sandbox mount paths are parameters of the model "
@@ -357,6 +363,18 @@ def run_specs(ctx, cases, tag):
     return ctx.parallel(run_spec_case, [(c, root) for c in cases])
 
 
+SPEED = {"per_case": 0.01}     # measured wall seconds per spec case (16 workers): scales the estimates of the later phases
+
+
+def affordable(ctx, what, units):
+    """skip a phase whose estimated duration (units x measured cost of one spec case) does not fit into the remaining budget"""
+    est = units * SPEED["per_case"]
+    if est > ctx.time_left() - ctx.budget * 0.15:
+        ctx.skip("%s (estimated %.0f s on this machine, %.0f s left)" % (what, est, max(ctx.time_left(), 0)))
+        return False
+    return True
+
+
 EXECUTED = []      # (case, result) of the oracle's spec stream; the correspondence compares the same executions with the model
 
 
@@ -364,7 +382,7 @@ def spec_stream(ctx, n, tag, judge, sink, reserve):
     """run n generated specs in chunks through the implementation until `reserve` seconds of the budget are left;
     judge each with the oracle"""
     cases = spec_cases(ctx, n, tag)
-    chunk = ctx.scale(150, 1000)
+    chunk = 64            # the first chunk measures the speed of this machine, later ones grow with the time that is left
     i = 0
     import time
     while i < len(cases):
@@ -391,11 +409,18 @@ def spec_stream(ctx, n, tag, judge, sink, reserve):
             sink.append((case, res))
         shutil.rmtree(os.path.join(ctx.tmp, "%s%d" % (tag, i)), ignore_errors=True)
         shutil.rmtree(os.path.join(ctx.tmp, "%s%d-retry" % (tag, i)), ignore_errors=True)
-        i += chunk
-        dt = time.time() - t0
-        if dt > 0 and i < len(cases) and ctx.time_left() - reserve < dt * 1.2:
+        i += len(part)
+        dt = max(time.time() - t0, 0.001)
+        per_case = dt / len(part)
+        SPEED["per_case"] = per_case
+        ctx.notes["spec_case_wall_s"] = round(per_case, 4)
+        if i >= len(cases):
+            break
+        afford = int((ctx.time_left() - reserve) / per_case * 0.7)
+        if afford < 16:
             ctx.skip("%s stream cut after %d of %d cases (time)" % (tag, i, len(cases)))
             break
+        chunk = max(16, min(afford, ctx.scale(500, 4000), len(cases) - i))
 
 
 def oracle(ctx):
@@ -654,8 +679,7 @@ def own_tag(ws, res):
 
 
 def oracle_projects(ctx):
-    if ctx.time_left() < ctx.budget * 0.35:
-        ctx.skip("`bob dev` project runs (time)")
+    if not affordable(ctx, "`bob dev` project runs", 700 if ctx.tier == "quick" else 6000):
         return
     cases = project_cases(ctx)
     limit = max(20, ctx.time_left() - ctx.budget * 0.22)
@@ -959,8 +983,7 @@ def run_fingerprint_case(arg):
 
 
 def oracle_fingerprint(ctx):
-    if ctx.time_left() < ctx.budget * 0.15:
-        ctx.skip("fingerprint scripts through `bob _invoke` (time)")
+    if not affordable(ctx, "fingerprint scripts through `bob _invoke`", 150 if ctx.tier == "quick" else 4000):
         return
     r = ctx.subrng("fingerprint")
     cases = []
@@ -1014,8 +1037,7 @@ def oracle_sandbox(ctx):
     if not sandbox_available():
         ctx.skip("sandboxed steps: bob-namespace-sandbox -C fails here (no user namespaces); only the helper argv is compared with the model")
         return
-    if ctx.time_left() < ctx.budget * 0.2:
-        ctx.skip("sandboxed steps (time)")
+    if not affordable(ctx, "sandboxed steps", 120 if ctx.tier == "quick" else 3000):
         return
     cases = sandbox_cases(ctx)
     root, outside = outside_tmp_root(ctx, "sbx")
@@ -1332,7 +1354,10 @@ def correspond_pure(ctx):
     if ctx.time_left() < 15:
         ctx.skip("bash word fragment against the real bash (time)")
         return
-    for i in range(ctx.scale(400, 20000)):
+    n_words = min(ctx.scale(400, 20000), int(max(ctx.time_left() - 10, 0) / max(SPEED["per_case"], 0.001)))
+    if n_words < ctx.scale(400, 20000):
+        ctx.skip("bash word fragment against the real bash: %d of %d words (time)" % (n_words, ctx.scale(400, 20000)))
+    for i in range(n_words):
         parts = []
         for _ in range(r.randrange(1, 4)):
             k = r.random()
@@ -1351,25 +1376,30 @@ def correspond_pure(ctx):
                 parts.append(v)          # raw: mostly outside the fragment (model must say so, never a wrong value)
         w = "".join(parts) + (":$PATH" if r.random() < 0.2 else "")
         words.append(w)
-    outs = ctx.parallel(_bash_word, [(w, t["bash"], t["cat"]) for w in words])
+    # the model first: only words it gives a value to are run by the real bash (a raw word outside the fragment may redirect,
+    # substitute commands, ...), in an empty scratch directory
     replies = ctx.lean(DRIVER, [{"op": "word", "text": w, "env": {"PATH": "/p:/q"}} for w in words])
-    for w, real, m in zip(words, outs, replies):
+    scratch = os.path.join(ctx.tmp, "words")
+    os.makedirs(scratch, exist_ok=True)
+    accepted = [w for w, m in zip(words, replies) if "ok" in m]
+    outs = dict(zip(accepted, ctx.parallel(_bash_word, [(w, t["bash"], t["cat"], scratch) for w in accepted])))
+    for w, m in zip(words, replies):
         ctx.case(("word", w))
         if "ok" in m:
             ctx.count("corr_word", "model-value")
-            if real != m["ok"]:
-                ctx.disagree("real bash `export V=<word>` == Model.bashWord", {"word": w}, real, m["ok"])
+            if outs[w] != m["ok"]:
+                ctx.disagree("real bash `export V=<word>` == Model.bashWord", {"word": w}, outs[w], m["ok"])
         else:
             ctx.count("corr_word", "outside-fragment:" + m["err"])
-    ctx.trace_validated(len(words))
+    ctx.trace_validated(len(accepted))
 
 
 def _bash_word(arg):
-    w, bash, cat = arg
+    w, bash, cat, scratch = arg
     script = "export V=%s\n%s /proc/self/environ\n" % (w, cat)
     try:
         p = subprocess.run([bash, "-c", script], env={"PATH": "/p:/q"}, stdout=subprocess.PIPE, stderr=subprocess.DEVNULL,
-                           stdin=subprocess.DEVNULL, timeout=60)
+                           stdin=subprocess.DEVNULL, timeout=60, cwd=scratch)
     except Exception:  # noqa
         return None
     if p.returncode != 0:
